@@ -2,7 +2,7 @@
 // Validity predicate driven by a small protocol-state model per server: exact where the statement is exact
 // (response count, multiplexer, listed abort codes, no side effect of a refusal), tolerant where it is silent.
 #include "model/sdo.h"
-namespace vf { void c14_case(Ctx &c); }
+namespace vf { void c14_case(Ctx &c); void c16_case(Ctx &c); }
 using namespace vf;
 
 namespace {
@@ -468,11 +468,12 @@ Registrar reg(Prop{
     "histories of up to 40 (60) request frames per case on one server (two in build n2, interleaved) over the full SDO command alphabet: canonical initiates of all five kinds with announced sizes around the object size, segments with right/wrong toggle, block segments/acknowledges/end frames, client aborts, unknown commands (ccs 7), commands with reserved bits, random bytes; "
     "multiplexers from existing / absent sub-index / absent index / the object of the open transfer; NMT state toggled between PRE-OPERATIONAL and OPERATIONAL. "
     "Oracle: per-request validity predicate from a protocol-state model per server (response count, responder id, multiplexer, listed abort codes, unchanged storage snapshot on refusal, named object's data/size on positive initiate responses). "
-    "Mode wide-dictionary: the same with additional objects at A100h and FFFEh (the dictionary spans more than 7FFFh indices). Mode pdo-mapping-verdicts: the PDO parameter histories and rule model of C14 (accept/refuse verdict, 0604 0041h / 0604 0042h where the reason is named, refused write changes nothing). "
+    "Mode wide-dictionary: the same with additional objects at A100h and FFFEh (the dictionary spans more than 7FFFh indices). Mode pdo-mapping-verdicts: the PDO parameter histories and rule model of C14 (accept/refuse verdict, 0604 0041h / 0604 0042h where the reason is named, refused write changes nothing). Mode sync-range-verdicts: the 1005h/1006h write histories and reference model of C16 (range verdict 0609 0030h exactly where the value cannot be accepted, value kept, and a refused write changes nothing - the running SYNC producer keeps its schedule). "
     "Non-trivial: the history contains an initiate while another transfer was open, or >= 3 different verdict classes (pdo-mapping-verdicts: >= 1 accepted and >= 1 refused write and an activation after them). Distinct = distinct decoded choice sequence.",
     {Mode{"random", one_case, false, 600000, 17000000, 0, 0, 260, 400},
      Mode{"wide-dictionary", wide_case, false, 100000, 3000000, 0, 0, 260, 400},
-     Mode{"pdo-mapping-verdicts", vf::c14_case, false, 150000, 3000000, 0, 0, 300, 600}},
+     Mode{"pdo-mapping-verdicts", vf::c14_case, false, 150000, 3000000, 0, 0, 300, 600},
+     Mode{"sync-range-verdicts", vf::c16_case, false, 150000, 3000000, 0, 0, 260, 500}},
     {"the mapping abort codes 0604 0041h/0042h need PDO objects: they are judged by a second mode that runs C14's case generator and rule model (histories of SDO writes to 14xx/16xx/18xx/1Axx) under this property as well",
      "length codes 0607 0012h/0013h are demanded where the length is announced in the initiate; a block download announcing less than a fixed-size object's width may be refused at once or at the end",
      "after out-of-protocol frames inside a block transfer the model stops judging that server until the next client abort (memory safety and bounded output still apply)",
